@@ -111,6 +111,17 @@ class StepWorld:
                     algo_kw[k] = cfg[k]
             settings = AlgorithmSettings("mcmc_saem", **algo_kw)
             self.algo = algorithm_factory(settings)
+            if cfg.get("zero_start_component"):
+                # degenerate but legal start: one component of a vector-valued population parameter is exactly 0 (a feature whose
+                # mean is 0.5 gives log g = 0); the default proposal scale of a population variable is |value|
+                for nm in ("log_g_mean", "g_mean", "deltas_mean", "log_v0_mean"):
+                    if nm in self.model.parameters and self.model.parameters[nm].numel() > 1:
+                        p = self.model.state[nm].clone()
+                        p.reshape(-1)[int(cfg["zero_start_component"]) % p.numel()] = 0.0
+                        self.model.state[nm] = p
+                        self.model.state[nm[: -len("_mean")]] = p.clone()   # (the population variable sits at its prior mode)
+                        self.counters["fault.zero_component_in_start_value"] += 1
+                        break
             torch.manual_seed(cfg["gseed"] & 0x7FFFFFFF)
             self.state = self.algo._initialize_algo(self.model, self.dataset)
         dag = self.state.dag
